@@ -5,7 +5,7 @@ Decode8/32/64, the std::vector code clang instantiates, ExtendTransitions (empty
 (fake vtable) over a SYMBOLIC byte image.  Every byte is symbolic; the header counts are restricted to a small range
 (the stated bound).  Obligations: every load/store in bounds, no signed overflow, no failing assert(), no uninitialised
 read, every loop terminates (unwinding bound + state-recurrence detection), and on success the representation invariant
-WF(table) that the query harnesses (C01-C03, C06, C10, C11, C14) assume -- including their 'times within +-2^61' premise."""
+WF(table) that the query harnesses (C01-C03, C06, C10, C11, C14) assume -- including their 'times within +-2^59' premise."""
 import sys, os, json, struct, ctypes, subprocess
 from . import common
 from . import tz_common as tz
@@ -16,6 +16,7 @@ from engine.irparse import I8, I32, I64, PtrTy
 from engine.smt import add, sub, mul, eq, ne, le, lt, ge, gt, and_, or_, not_, ite, b2i, implies
 
 HDR = 44
+BIG_SYMBOLIC_FLAGS = 3
 
 def be(bs):
     v = 0
@@ -28,10 +29,13 @@ def big_fixed_byte(i, timecnt, typecnt):
     dpos = i - HDR
     if i < HDR: return hdr[i]
     if dpos < 5 * timecnt: return 0
-    if dpos < 5 * timecnt + 6 * typecnt: return None if (dpos - 5 * timecnt) % 6 == 4 else 0
+    if dpos < 5 * timecnt + 6 * typecnt:
+        k, f = divmod(dpos - 5 * timecnt, 6)
+        if f != 4: return 0
+        return None if k >= typecnt - BIG_SYMBOLIC_FLAGS else 1     # the last few is_dst flags are symbolic, the others set
     return 0
 
-def job_load(version, timecnt, typecnt, charcnt_max=3, extra=2, big_types=False, queries=True):
+def job_load(version, timecnt, typecnt, charcnt_max=3, extra=2, big_types=False, queries=True, lean=False):
     mod = tz.module()
     ex = symex.Executor(mod, tlimit_ms=120000)
     ex.max_unwind = 300 if big_types else 40
@@ -57,8 +61,9 @@ def job_load(version, timecnt, typecnt, charcnt_max=3, extra=2, big_types=False,
         for i in range(total):
             b = ex.input("b%d" % i, 8)
             if big_types:
-                # the 256-type job targets the 8-bit default-type search: only the is_dst flags stay symbolic, every other
-                # byte is a fixed valid value (magic, counts, one transition of type 0, offsets 0, abbreviation index 0)
+                # the 256-type job targets the 8-bit default-type search: only the last BIG_SYMBOLIC_FLAGS is_dst flags stay
+                # symbolic (the others are set), every other byte is a fixed valid value (magic, counts, one transition of
+                # type 0, offsets 0, abbreviation index 0)
                 fb = big_fixed_byte(i, timecnt, typecnt)
                 if fb is not None: b = fb if fb < 128 else fb - 256
             B.append(b); ex.store_raw(st, Ptr(fobj.obj, i), 1, b)
@@ -79,7 +84,12 @@ def job_load(version, timecnt, typecnt, charcnt_max=3, extra=2, big_types=False,
             ex.assume(st, ne(B[4], 0))
         else:
             ex.assume(st, eq(B[4], 0))
-        if not big_types:
+        if lean:
+            # lean shapes: the optional counts are fixed to 0 (their validation is covered by the other shapes), all data bytes free
+            for off_ in (20, 24, 28): ex.assume(st, eq(be(B[hb + off_:hb + off_ + 4]), 0))
+            ex.assume(st, eq(be(B[hb + 32:hb + 36]), timecnt)); ex.assume(st, eq(be(B[hb + 36:hb + 40]), typecnt))
+            ex.assume(st, eq(be(B[hb + 40:hb + 44]), charcnt_max))
+        elif not big_types:
             count_field(hb + 20, 0, typecnt)       # ttisutcnt
             count_field(hb + 24, 0, typecnt)       # ttisstdcnt
             count_field(hb + 28, 0, 1)             # leapcnt
@@ -167,7 +177,7 @@ def check_wf(ex, st, zobj, info, hb, version, timecnt, typecnt):
     ex.prove(st, and_(lt(unix[0], 0), ge(unix[N - 1], 0)), "Load => first transition < 0 <= last transition")
     for i in range(N):
         ex.prove(st, and_(le(-tz.TLIM, unix[i]), le(unix[i], tz.TLIM)),
-                 "Load => every transition time within +-2^61 (premise under which the query harnesses prove absence of overflow)")
+                 "Load => every transition time within +-2^59 (premise under which the query harnesses prove absence of overflow)")
     # decoding agrees with the bytes (reference reading of tzfile(5))
     B = info["B"]; tlen = 8 if version >= 2 else 4
     base = hb + HDR
@@ -229,13 +239,15 @@ def replay(case):
 def run(tier):
     rep = common.Report("C12", tier, "other")
     mod = tz.module(); rep.add_module("wrap/tzinfo.cc", mod)
-    shapes = [(1, 0, 1), (1, 1, 1), (2, 0, 1), (2, 1, 1)] if tier == "quick" else \
-             [(1, 0, 1), (1, 1, 1), (1, 1, 2), (1, 2, 2), (2, 0, 1), (2, 1, 1), (2, 1, 2), (2, 2, 2)]
-    # after the range check (fix e7109df) Load itself establishes the +-2^61 premise, so the continuation into the queries is
+    shapes = [(1, 0, 0), (2, 0, 0), (1, 0, 1), (1, 1, 1), (2, 0, 1)] if tier == "quick" else \
+             [(1, 0, 0), (2, 0, 0), (1, 0, 1), (1, 1, 1), (2, 0, 1), (2, 1, 1)]
+    # after the range check (fix e7109df) Load itself establishes the +-2^59 premise, so the continuation into the queries is
     # only kept for the smallest 64-bit shape of the thorough tier
     jobs = [("Load:v%d,timecnt=%d,typecnt=%d" % s, job_load, {"version": s[0], "timecnt": s[1], "typecnt": s[2], "queries": False}) for s in shapes]
     if tier == "thorough":
         jobs.append(("Load+queries:v2,timecnt=1,typecnt=1", job_load, {"version": 2, "timecnt": 1, "typecnt": 1, "queries": True}))
+    lean = [(1, 1, 2)] if tier == "quick" else [(1, 1, 2), (1, 2, 2), (2, 1, 2), (2, 2, 2), (1, 2, 3)]
+    jobs += [("Load(lean):v%d,timecnt=%d,typecnt=%d" % s, job_load, {"version": s[0], "timecnt": s[1], "typecnt": s[2], "charcnt_max": 1, "lean": True, "queries": False}) for s in lean]
     jobs.append(("Load:v1,timecnt=1,typecnt=256(8-bit default-type search)", job_load, {"version": 1, "timecnt": 1, "typecnt": 256, "charcnt_max": 1, "big_types": True}))
     results = common.run_jobs(jobs)
     rep.add_jobs(results)
@@ -256,7 +268,7 @@ def run(tier):
             else:
                 rep.spurious.append({"job": r["name"], "obligation": fobj["desc"], "image_len": len(img)})
     rep.bounds = ["every byte of the image symbolic; header counts: timecnt/typecnt as per job shape %s, charcnt <= 3, leapcnt <= 1, ttisstd/ttisut <= typecnt, or negative" % shapes,
-                  "versions 1 and 2+ (empty footer)", "typecnt = 256 with one transition (the 8-bit default-type search)",
+                  "lean shapes (optional counts fixed to 0, one abbreviation byte): %s" % lean, "versions 1 and 2+ (empty footer)", "typecnt = 256 with one transition (the 8-bit default-type search)",
                   "loops: unwinding bound 40 (300 for the 256-type job) with state-recurrence detection for non-termination"]
     rep.outside = ["data lengths above the bound (the header can declare up to 2^31 items of each kind)", "non-empty POSIX footers (C16 covers the parser; ExtendTransitions' 401-year loop is not executed here)",
                    "allocation failure", "the 32-bit block of a version-2+ file is fixed to its smallest shape (it is skipped, not decoded)"]
